@@ -158,7 +158,7 @@ fn register(vm: &mut Vm<H>) {
 }
 
 /// value kinds a script can supply
-const KINDS: [&str; 6] = ["nil", "int", "real", "str", "table", "function"];
+const KINDS: [&str; 7] = ["nil", "int", "real", "str", "table", "function", "negative real"];
 
 fn supplied(kind: usize) -> C {
     match kind {
@@ -167,6 +167,7 @@ fn supplied(kind: usize) -> C {
         2 => C::Float(2.5),
         3 => s("text"),
         4 => rv("tab"),
+        6 => C::Float(-2.5),
         _ => C::Function("helper".into()),
     }
 }
@@ -187,6 +188,7 @@ fn expect(ty: usize, kind: usize) -> Expect {
         2 => "2".to_string(),
         3 => "4".to_string(), // length of "text"
         4 => "2".to_string(), // length of the table
+        6 => "-2".to_string(), // a real is cut off towards zero
         _ => "0".to_string(),
     };
     match (ty, kind) {
@@ -195,10 +197,12 @@ fn expect(ty: usize, kind: usize) -> Expect {
         (0, 2) => Exactly("real 2.5".into()),
         (0, 3) => Exactly("str \"text\"".into()),
         (0, 4) => Exactly("table/2".into()),
+        (0, 6) => Exactly("real -2.5".into()),
         (0, _) => Exactly("function".into()),
         (1, 1) => Exactly("i64 42".into()),
         (1, k) => Either(format!("i64 {}", coerced_i(k))),
         (2, 2) => Exactly("f64 2.5".into()),
+        (2, 6) => Exactly("f64 -2.5".into()),
         (2, 1) => Either("f64 42.0".into()),
         (2, k) => Either(format!("f64 {}.0", coerced_i(k))),
         (3, 3) => Exactly("&str \"text\"".into()),
@@ -232,19 +236,19 @@ fn tcases() -> Vec<TCase> {
         for path in 0..3 {
             v.push(TCase { arity: 0, rot: 0, kinds: vec![], path: path.min(1), depth });
             for rot in 0..8 {
-                for k in 0..6 {
+                for k in 0..KINDS.len() {
                     v.push(TCase { arity: 1, rot, kinds: vec![k], path, depth });
                 }
                 if path == 2 {
                     continue;
                 }
-                for k in 0..36 {
-                    v.push(TCase { arity: 2, rot, kinds: vec![k % 6, k / 6], path, depth });
+                for k in 0..KINDS.len() * KINDS.len() {
+                    v.push(TCase { arity: 2, rot, kinds: vec![k % KINDS.len(), k / KINDS.len()], path, depth });
                 }
                 for arity in [3usize, 4] {
                     // every position sees every kind while the others hold a value of the exact kind
                     for pos in 0..arity {
-                        for k in 0..6 {
+                        for k in 0..KINDS.len() {
                             let mut kinds: Vec<usize> = (0..arity).map(|p| exact_kind((rot + p) % 8)).collect();
                             kinds[pos] = k;
                             v.push(TCase { arity, rot, kinds, path, depth });
